@@ -1009,6 +1009,9 @@ def check_c14(ix, cfg):
                             out.append(V("C14", "invoke-wrong-result", f"{pos}: returned {json.dumps(d['v'])[:80]}, expected {json.dumps(exp)[:80]}",
                                          pos=pos, seq=d["s1"]))
                 elif d["how"] == "raise" and not d.get("inv_level"):
+                    if st_be == "SUCCEEDED":
+                        out.append(V("C14", "invoke-raised-on-success", f"{pos}: raised {d['cls']}: {str(d['msg'])[:80]} although the backend "
+                                     f"holds the call SUCCEEDED", pos=pos, seq=d["s1"]))
                     if d["cls"] == "CallableRuntimeError" and st_be not in ("FAILED", "TIMED_OUT", "STOPPED"):
                         out.append(V("C14", "invoke-error-without-failure", f"{pos}: raised while backend status {st_be}", pos=pos, seq=d["s1"]))
                     if st_be in ("FAILED", "TIMED_OUT", "STOPPED") and d["cls"] != "CallableRuntimeError":
